@@ -224,7 +224,14 @@ func Sockaddr(t *rapid.T) (kenc.Rec, map[string]string) {
 	case 1:
 		var ip [16]byte
 		copy(ip[:], rapid.SliceOfN(rapid.Byte(), 16, 16).Draw(t, "ip6"))
-		switch rapid.IntRange(0, 5).Draw(t, "ip6kind") {
+		switch rapid.IntRange(0, 7).Draw(t, "ip6kind") {
+		case 6, 7:
+			// addresses of the ranges code tends to treat specially: link-local, unique-local, multicast, 6to4, NAT64
+			pre := rapid.SampledFrom([][]byte{{0xfe, 0x80}, {0xfe, 0x80, 0, 0, 0, 0, 0, 0}, {0xfc, 0x00}, {0xfd, 0x12}, {0xff, 0x02}, {0xff, 0x05}, {0x20, 0x02}, {0x00, 0x64, 0xff, 0x9b}, {0xfe, 0xc0}}).Draw(t, "ip6prefix")
+			copy(ip[:], pre)
+			if len(pre) == 8 {
+				copy(ip[8:], []byte{0, 0, 0, 0, 0, 0, 0, 1})
+			}
 		case 0:
 			ip = [16]byte{15: 1}
 		case 1:
